@@ -136,8 +136,47 @@ func init() {
 		struct{ name, text string }{"function-body", F + " sg() {\n  " + P + " \"in-sg\";\n  %s\n  " + P + " \"in-sg-after\";\n}\nsg();\n"},
 		struct{ name, text string }{"function-body-if-arm", F + " sg(n) {\n  " + I + " (n == 1) {\n    %s\n  }\n  " + P + " n;\n}\nsg(0);\nsg(1);\n"},
 		struct{ name, text string }{"function-called-in-loop", F + " sg() {\n  %s\n}\n" + W + " (x < 2) {\n  x = x + 1;\n  sg();\n  " + P + " \"iter\";\n}\n"},
+		struct{ name, text string }{"while-body", W + " (x < 3) {\n  x = x + 1;\n  " + P + " \"iter\";\n  %s\n  " + P + " \"iter-after\";\n}\n"},
+		struct{ name, text string }{"for-body", bn.KwFor + " (" + bn.KwVar + " i = 0; i < 3; i = i + 1) {\n  " + P + " i;\n  %s\n}\n"},
+		struct{ name, text string }{"if-in-while-body", W + " (x < 3) {\n  x = x + 1;\n  " + I + " (x == 2) {\n    %s\n  }\n  " + P + " x;\n}\n"},
+		struct{ name, text string }{"loop-in-function", F + " sg() {\n  " + W + " (x < 2) {\n    x = x + 1;\n    %s\n  }\n  " + P + " \"sg-after-loop\";\n}\nsg();\n"},
 		struct{ name, text string }{"function-called-in-expression", F + " sg() {\n  %s\n}\n" + P + " pr(\"first-operand\", 1) + sg() + pr(\"later-operand\", 1);\n"},
 	)
+}
+
+// c06Layout rewrites the line ends of a program: 0 as written, 1 a blank or a tab before every newline and
+// blank-only lines in between, 2 CRLF line ends, 3 a mixture.  Line numbers are whatever the text then has.
+func c06Layout(src string, k int) string {
+	switch k % 4 {
+	case 1:
+		lines := strings.Split(src, "\n")
+		var b strings.Builder
+		for i, l := range lines {
+			if i == len(lines)-1 {
+				b.WriteString(l)
+				break
+			}
+			b.WriteString(l + []string{" ", "\t", "  \t "}[i%3] + "\n")
+			if i%4 == 1 {
+				b.WriteString("    \n")
+			}
+		}
+		return b.String()
+	case 2:
+		return strings.ReplaceAll(src, "\n", "\r\n")
+	case 3:
+		lines := strings.Split(src, "\n")
+		var b strings.Builder
+		for i, l := range lines {
+			if i == len(lines)-1 {
+				b.WriteString(l)
+				break
+			}
+			b.WriteString(l + []string{"\n", " \n", "\r\n", "\t\r\n", "\n\t\n"}[i%5])
+		}
+		return b.String()
+	}
+	return src
 }
 
 func c06Kinds(k string) bool { return true }
@@ -207,7 +246,7 @@ func TestC06(t *testing.T) {
 					if k%2 == 0 {
 						pre = c06PreludeML
 					}
-					src := pre + fmt.Sprintf(p.text, f.expr) + c06Tail
+					src := c06Layout(pre+fmt.Sprintf(p.text, f.expr)+c06Tail, int(k/2))
 					cli := c.Thorough || k%7 == 0
 					c.c06Program(s, "fault-x-position", src, !strings.HasPrefix(p.name, "top-"), cli, "kind-"+f.kind, "pos-"+p.name)
 				}
@@ -291,7 +330,7 @@ func TestC06(t *testing.T) {
 			if rapid.Bool().Draw(rt, "multiLinePrelude") {
 				pre = c06PreludeML
 			}
-			src := pre + strings.Join(lines, "\n") + c06Tail
+			src := c06Layout(pre+strings.Join(lines, "\n")+c06Tail, rapid.IntRange(0, 3).Draw(rt, "lineEnds"))
 			c.c06Program(s, "rand-planted-fault", src, true, rapid.IntRange(0, 9).Draw(rt, "cli") == 0, "planted-"+planted)
 		})
 	})
